@@ -77,7 +77,7 @@ def step (st : St) (l : Line) : St × List Msg :=
       (if r2 = r1 then [] else [(if r2.length = r1.length then some (differing r1 r2) else none,
          Msg.prop (tag ++ s!"contents change across close and rescan: r1=[{ra.get "r1"}] r2=[{ra.get "r2"}]"))])
     -- (a') C11 on the recovered store (images at hook points only): after everything was removed, the files were left behind and
-    -- eight cycles of both collectors ran, no non-current primary file may be left without a record in use, or with a free share
+    -- four cycles of both collectors, a restart (which clears the collector's visited set) and five more cycles ran, no non-current primary file may be left without a record in use, or with a free share
     -- at or above the low-use threshold (it must have been drained by relocation); records that no index entry ever named
     -- (a crash between the primary's and the index's flush) count as in use until relocation finds them unreferenced
     let drainFiles : List (Nat × Nat × Nat × Nat) := ((((ra.get "drain").splitOn "!").headD "").splitOn ",").filterMap fun e =>
@@ -137,7 +137,10 @@ def step (st : St) (l : Line) : St × List Msg :=
     -- recognisers of the known findings (decidable predicates on the image / history, not on the outcome)
     let tornPrimary := ((ra.get "tear").splitOn "storethehash.data.").length > 1
     -- D13: between the moment the old header left the index directory and the moment the new one arrived
-    let noHeader := inTranslate && im.disk.ihdr.isNone && !im.badIdxHdr
+    -- (or, earlier in the same window, with the header still in place but some of the OLD files already moved out: the next
+    -- open then rescans a log with a hole)
+    let noHeader := inTranslate && ((im.disk.ihdr.isNone && !im.badIdxHdr) ||
+      point == "movefiles.file_moved" || point == "movefiles.header_moved" || point == "translate.old_moved")
     let tainted := if isEnd then st.taint11 else (st.imgTaint11 || st.taint11)
     -- D14: the resume of the offset remapping trusts `.remapped` markers, which are created before the remapped copy is renamed
     -- over the original and whose files' deletion pool is not rebuilt
